@@ -41,7 +41,7 @@ class Ctx:
             with open(fp) as f:
                 floors = json.load(f).get(self.rep.prop, floors)
         # families that answer only where the code resolves ("undecided" otherwise) have no floor by design
-        floors = {k_: v_ for k_, v_ in floors.items() if k_ not in ("R-RANGE",)}
+        floors = {k_: v_ for k_, v_ in floors.items() if k_ not in ("R-RANGE", "R-TILE")}
         counts = {}
         seen = set()
         for o in self.rep.obs:
